@@ -1437,6 +1437,74 @@ theorem C18_accept_wf (ctx : Ctx) (req : Req) (e : Effect)
                 refine ⟨⟨⟨⟨by omega, by decide⟩, ?_⟩, by decide⟩, hlim.2⟩
                 exact (viol_r 1 75 _).mpr hlim
 
+/-! ## what is not executed decides nothing; what is executed cannot be masked -/
+
+/-- **C18_search_dormant.** `ValidateSchema` and the set of vectors that reach a distance closure depend
+on the EXECUTED part of a query only (`Query.live`: for `_and` / `_or` the list of that name; for a
+property with an index the options of the index's type and their filter): an `_and` list on an `_or`
+node, option blocks of other types, lists on a leaf — however ill-fitting — change neither. -/
+theorem C18_search_dormant (schema : Schema) (q : Query) :
+    (q.live schema).validSchema schema = q.validSchema schema ∧ (q.live schema).reach schema = q.reach schema :=
+  ⟨live_validSchema schema q, live_reach schema q⟩
+
+/-- consequently the v2 search handler answers two requests alike when their queries have the same
+executed part and both pass (or both fail) the schema-independent `Validate` -/
+theorem C18_search_status_live (sp : Spec) (en : Enums) (ctx : Ctx) (c : ColCtx) (hc : ctx.col = some c) (r1 r2 : SearchReq)
+    (hl : r1.query.live c.schema = r2.query.live c.schema) (hv : r1.valid sp en = r2.valid sp en) :
+    (handle sp en ctx (.v2Search (some r1))).status = (handle sp en ctx (.v2Search (some r2))).status := by
+  have hvs : r1.query.validSchema c.schema = r2.query.validSchema c.schema := by
+    rw [← live_validSchema c.schema r1.query, ← live_validSchema c.schema r2.query, hl]
+  simp only [handle, v2Search, withCol, hc]
+  split
+  · rfl
+  · simp only [Bool.false_and, Bool.false_eq_true, if_false, hv]
+    split
+    · rfl
+    · rw [hvs]
+      cases r2.query.validSchema c.schema <;> rfl
+
+/-- **C18_wrong_length_refused** (the contrapositive of `C18_vec_len_search`, spelled out): if anywhere in
+the executed part of a v2 search — top level, inside `_and` / `_or`, inside the filter of a vector or
+text leaf, at any depth, whatever valid filters, weights, dormant lists and blocks stand beside it — a
+vector's length differs from the dimension of the index it would be run on, nothing is handed to the
+cluster layer. -/
+theorem C18_wrong_length_refused (sp : Spec) (en : Enums) (ctx : Ctx) (c : ColCtx) (hc : ctx.col = some c) (r : SearchReq)
+    (x : Reach) (hx : x ∈ r.query.reach c.schema) (hne : (x.len : Int) ≠ x.dim) :
+    (handle sp en ctx (.v2Search (some r))).eff = none := by
+  simp only [handle, v2Search, withCol, hc]
+  split
+  · rfl
+  · simp only [Bool.false_and, Bool.false_eq_true, if_false]
+    split
+    · rfl
+    · cases hvs : r.query.validSchema c.schema with
+      | bad => rfl
+      | panic => rfl
+      | ok => exact absurd (reach_ok c.schema r.query hvs x hx) hne
+
+/-- **C18_v1_by_type.** The v1 endpoints of a collection go by the declared TYPE of the `vector` entry: if it
+is not `vectorVamana` — whatever parameter blocks the entry carries, a vamana block included — every v1
+request addressing the collection is answered 400 and nothing is handed on. -/
+theorem C18_v1_by_type (sp : Spec) (en : Enums) (ctx : Ctx) (c : ColCtx) (hc : ctx.col = some c) (sv : SchemaValue)
+    (hl : lookup c.schema kVector = some sv) (ht : sv.type ≠ tVectorVamana) (req : Req)
+    (hreq : match req with | .v1Get | .v1DeleteCol | .v1Insert _ | .v1Update _ | .v1Delete _ | .v1Search _ => True | _ => False) :
+    (handle sp en ctx req).status = 400 ∧ (handle sp en ctx req).eff = none := by
+  have hv : isV1Collection c.schema = false := by simp [isV1Collection, hl, ht]
+  have wc : ∀ rng (k : ColCtx → Outcome), (withCol rng true ctx k).status = 400 ∧ (withCol rng true ctx k).eff = none := by
+    intro rng k
+    unfold withCol
+    split
+    · simp [reject]
+    · simp [hc, hv, reject]
+  cases req with
+  | v1Get => exact wc _ _
+  | v1DeleteCol => exact wc _ _
+  | v1Insert b => exact wc _ _
+  | v1Update b => exact wc _ _
+  | v1Delete b => exact wc _ _
+  | v1Search b => exact wc _ _
+  | _ => exact absurd hreq (by simp)
+
 /-! ## non-vacuity: the hypotheses of the theorems are satisfiable on concrete states
 (kept small: `decide` evaluates the model in the kernel without sharing) -/
 
@@ -1473,6 +1541,22 @@ example : (handle Spec.documented Enums.documented exCtx (.v2Search (some (exSea
 example : exSchema2.valid Spec.documented Enums.documented = true := by decide
 -- v1 on a collection without the v1 index: refused with 400 (pinned tree: nil dereference)
 example : (handle Spec.documented Enums.documented exCtx (.v1Search (some ⟨[0, 0], 5⟩))).status = 400 := by decide
+-- C18_search_dormant: an `_or` node whose dormant `_and` list holds a vector of the wrong length is accepted like its
+-- executed part alone; the same leaf in the executed list is refused whatever valid `_and` list stands beside it
+def exLeaf (n : Nat) : Query := .mk (S "vec") (some ⟨List.replicate n 0, S "near", 0, 5, none⟩) none none none none none none none none none [] []
+def exOr (live dormant : Nat) : Query := .mk pOr none none none none none none none none none none [exLeaf dormant] [exLeaf live]
+example : (exOr 2 3).validSchema exSchema = .ok ∧ (exOr 3 2).validSchema exSchema = .bad ∧
+    ((exOr 2 3).live exSchema).and.length = 0 ∧ ((exOr 2 3).live exSchema).or.length = 1 := by decide
+-- C18_wrong_length_refused: a wrong-length leaf that carries a valid filter of its own, inside the filter of a well-formed leaf
+def exFiltered (outer inner : Nat) : Query :=
+  .mk (S "vec") (some ⟨List.replicate outer 0, S "near", 0, 5, none⟩) none none none none none none
+    (some (.mk (S "vec") (some ⟨List.replicate inner 0, S "near", 0, 5, none⟩) none none none none none none (some (exLeaf 2)) none none [] [])) none none [] []
+example : ((exFiltered 2 3).reach exSchema).map (fun x => (x.dim, x.len)) = [(2, 2), (2, 3), (2, 2)] ∧ (exFiltered 2 3).validSchema exSchema = .bad ∧ (exFiltered 2 2).validSchema exSchema = .ok := by decide
+-- C18_v1_by_type: `vector` declared as a flat index with a vamana block beside it (accepted by IndexSchema.Validate)
+def exStray : Schema :=
+  [(kVector, { type := tVectorFlat, flat := some ⟨3, S "euclidean", none⟩, vamana := some ⟨3, S "euclidean", 75, 64, 0x3FF3333340000000, none⟩, text := none, string := none, stringArray := none })]
+example : exStray.valid Spec.documented Enums.documented = true ∧ isV1Collection exStray = false ∧
+    (handle Spec.documented Enums.documented { exCtx with col := some ⟨exStray, 0⟩ } (.v1Search (some ⟨[0, 0, 0], 5⟩))).status = 400 := by decide
 -- C18_vec_len_stored, hypothesis `hm`: one new key, nothing deleted
 example : ∀ k, lookup [(S "note", J.null)] k = mergeLookup [] [(S "note", J.null)] k := by
   intro k
@@ -1507,6 +1591,45 @@ theorem C18_pin_routes : FactsC18.routes = ["root mux.Handle(\"/v1/\", http.Stri
   "v2 mux.Handle(\"PUT /collections/{collectionId}/points\", withCol(semaDBHandlers.HandleUpdatePoints))",
   "v2 mux.Handle(\"DELETE /collections/{collectionId}/points\", withCol(semaDBHandlers.HandleDeletePoints))",
   "v2 mux.Handle(\"POST /collections/{collectionId}/points/search\", withCol(semaDBHandlers.HandleSearchPoints))"] := rfl
+
+/-- the recursion sites the model's `Query.valid`, `Query.validSchema`, `Query.reach` and `Query.live` transcribe: which list
+(`q.And` / `q.Or`) and which filter `Query.Validate`, `Query.ValidateSchema` and `indexManager.Search` (shard/index/search.go)
+hand on, under which case of their switches — `_and` runs / checks the `_and` list, `_or` the `_or` list, a vector / text leaf
+its own filter, and `Validate` (alone) looks at every block and both lists -/
+theorem C18_pin_dispatch : FactsC18.dispatch = [
+  ("models.Query.Validate", "-", "call q.VectorFlat.Validate()"),
+  ("models.Query.Validate", "-", "call q.VectorVamana.Validate()"),
+  ("models.Query.Validate", "-", "call q.Text.Validate()"),
+  ("models.Query.Validate", "-", "call q.String.Validate()"),
+  ("models.Query.Validate", "-", "call q.Integer.Validate()"),
+  ("models.Query.Validate", "-", "call q.Float.Validate()"),
+  ("models.Query.Validate", "-", "call q.StringArray.Validate()"),
+  ("models.Query.Validate", "-", "range q.And"),
+  ("models.Query.Validate", "-", "call subQuery.Validate()"),
+  ("models.Query.Validate", "-", "range q.Or"),
+  ("models.Query.Validate", "-", "call subQuery.Validate()"),
+  ("models.Query.Validate", "case q.StringArray != nil", "range q.StringArray.Value"),
+  ("models.Query.ValidateSchema", "case \"_and\"", "range q.And"),
+  ("models.Query.ValidateSchema", "case \"_and\"", "call subQuery.ValidateSchema(schema)"),
+  ("models.Query.ValidateSchema", "case \"_or\"", "range q.Or"),
+  ("models.Query.ValidateSchema", "case \"_or\"", "call subQuery.ValidateSchema(schema)"),
+  ("models.Query.ValidateSchema", "case IndexTypeVectorFlat", "call q.VectorFlat.Filter.ValidateSchema(schema)"),
+  ("models.Query.ValidateSchema", "case IndexTypeVectorVamana", "call q.VectorVamana.Filter.ValidateSchema(schema)"),
+  ("models.Query.ValidateSchema", "case IndexTypeText", "call q.Text.Filter.ValidateSchema(schema)"),
+  ("index.indexManager.Search", "case \"_and\"", "call im.searchParallel(ctx, q.And, false)"),
+  ("index.indexManager.Search", "case \"_or\"", "call im.searchParallel(ctx, q.Or, true)"),
+  ("index.indexManager.Search", "case \"_id\"", "call im.searchById(q)"),
+  ("index.indexManager.Search", "case models.IndexTypeVectorVamana", "call im.Search(ctx, *q.VectorVamana.Filter)"),
+  ("index.indexManager.Search", "case models.IndexTypeVectorVamana", "call vamanaIndex.Search(ctx, *q.VectorVamana, filter)"),
+  ("index.indexManager.Search", "case models.IndexTypeVectorFlat", "call im.Search(ctx, *q.VectorFlat.Filter)"),
+  ("index.indexManager.Search", "case models.IndexTypeVectorFlat", "call flatIndex.Search(ctx, *q.VectorFlat, filter)"),
+  ("index.indexManager.Search", "case models.IndexTypeText", "call im.Search(ctx, *q.Text.Filter)"),
+  ("index.indexManager.Search", "case models.IndexTypeText", "call textIndex.Search(*q.Text, filter)"),
+  ("index.indexManager.Search", "case models.IndexTypeString", "call stringIndex.Search(*q.String)"),
+  ("index.indexManager.Search", "case models.IndexTypeStringArray", "call stringArrayIndex.Search(*q.StringArray)"),
+  ("index.indexManager.Search", "case models.IndexTypeInteger", "call integerIndex.Search(q.Integer.Value, q.Integer.EndValue, q.Integer.Operator)"),
+  ("index.indexManager.Search", "case models.IndexTypeFloat", "call floatIndex.Search(q.Float.Value, q.Float.EndValue, q.Float.Operator)")
+] := rfl
 
 theorem C18_pin_skeleton : FactsC18.skeleton = [
   ("models.IndexSchema.Validate", "if err != nil"),
@@ -1846,6 +1969,48 @@ theorem C18_pin_skeleton : FactsC18.skeleton = [
   ("cluster.ClusterNode.InsertPoints", "if err != nil"),
   ("cluster.ClusterNode.InsertPoints", "if err != nil"),
   ("cluster.ClusterNode.InsertPoints", "if err != nil"),
+  ("index.indexManager.Search", "switch q.Property"),
+  ("index.indexManager.Search", "case \"_and\""),
+  ("index.indexManager.Search", "case \"_or\""),
+  ("index.indexManager.Search", "case \"_id\""),
+  ("index.indexManager.Search", "if !ok"),
+  ("index.indexManager.Search", "if err != nil"),
+  ("index.indexManager.Search", "switch itype"),
+  ("index.indexManager.Search", "case models.IndexTypeVectorVamana"),
+  ("index.indexManager.Search", "case models.IndexTypeVectorFlat"),
+  ("index.indexManager.Search", "case models.IndexTypeText"),
+  ("index.indexManager.Search", "case models.IndexTypeString"),
+  ("index.indexManager.Search", "case models.IndexTypeStringArray"),
+  ("index.indexManager.Search", "case models.IndexTypeInteger"),
+  ("index.indexManager.Search", "case models.IndexTypeFloat"),
+  ("index.indexManager.Search", "default"),
+  ("index.indexManager.Search", "if q.VectorVamana == nil"),
+  ("index.indexManager.Search", "if q.VectorVamana.Filter != nil"),
+  ("index.indexManager.Search", "if err != nil"),
+  ("index.indexManager.Search", "if err != nil"),
+  ("index.indexManager.Search", "if err != nil"),
+  ("index.indexManager.Search", "if q.VectorFlat == nil"),
+  ("index.indexManager.Search", "if q.VectorFlat.Filter != nil"),
+  ("index.indexManager.Search", "if err != nil"),
+  ("index.indexManager.Search", "if err != nil"),
+  ("index.indexManager.Search", "if err != nil"),
+  ("index.indexManager.Search", "if q.Text == nil"),
+  ("index.indexManager.Search", "if q.Text.Filter != nil"),
+  ("index.indexManager.Search", "if err != nil"),
+  ("index.indexManager.Search", "if err != nil"),
+  ("index.indexManager.Search", "if q.String == nil"),
+  ("index.indexManager.Search", "if q.StringArray == nil"),
+  ("index.indexManager.Search", "if q.Integer == nil"),
+  ("index.indexManager.Search", "if q.Float == nil"),
+  ("index.indexManager.searchById", "if err != nil"),
+  ("index.indexManager.searchById", "switch "),
+  ("index.indexManager.searchById", "case q.String != nil"),
+  ("index.indexManager.searchById", "case q.StringArray != nil"),
+  ("index.indexManager.searchById", "default"),
+  ("index.indexManager.searchById", "if q.String.Operator != models.OperatorEquals"),
+  ("index.indexManager.searchById", "if q.StringArray.Operator != models.OperatorContainsAny"),
+  ("index.indexManager.searchById", "if err != nil"),
+  ("index.indexManager.searchById", "if err == nil"),
   ("cluster.ClusterNode.RPCCreateCollection", "if args.Dest != c.MyHostname"),
   ("cluster.ClusterNode.RPCCreateCollection", "if err != nil"),
   ("cluster.ClusterNode.RPCCreateCollection", "if err != nil"),
